@@ -55,6 +55,9 @@ def check(rep, ctx):
                   message=f"the result of read({z['size']}) is taken for end of stream when empty, but nothing shows {z['size']} > 0 on this path: "
                           f"a 0-byte request returns b'' and complete input is reported as BufferUnderflow", file=z["file"], line=z["line"])
     rep.count(R_Z, 1, instance="scan")
+    R_LD = rep.rule("C01-f-length-domain", "every length a field's format can carry is accepted by its writer (an instance with a long value "
+                    "encodes, so that it can decode back)", floor=1500)
+    from .wire import length_domain_rows
     R_P = rep.rule("C01-plan", "reader and writer plans can be derived", floor=1600)
     for key, cls, plan in W.classes():
         if not rep.check(R_P, not plan["error"], construct=key, stmt=str(plan.get("error")),
@@ -105,6 +108,9 @@ def check(rep, ctx):
                 rep.check(R_C, consts == {rd_term}, construct=construct, stmt=f"writer elides against {sorted(consts)}; reader fills {rd_term}",
                           message=f"writer elides the field when it equals {sorted(consts)} but the reader fills an absent tag with {rd_term}",
                           **W.floc(cls, f))
+            # f: the writer accepts every well-typed value (length domains)
+            for ok_, c_, stmt_, msg_, loc_ in length_domain_rows(W, pf, construct):
+                rep.check(R_LD, ok_, construct=c_, stmt=stmt_, message=msg_, instance=construct + "|" + stmt_[:30], **loc_)
             # d: time writers
             kt = (f.get("metadata") or {}).get("kafka_type")
             if kt in TIME_TYPES:
